@@ -168,24 +168,35 @@ func r138(c *Ctx, r *R) {
 		if f == nil {
 			continue
 		}
-		sends := findCalls(f, false, "adder.BlockAdder).AddMany", "adder.BlockAdder).Add", "sharding.DAGService).flushCurrentShard")
-		pins := findCalls(f, false, ModPath+"/adder.Pin")
+		// sends and pins, in f or in helpers extracted from it: ordered by
+		// their (outer) position in f, guarded where they are written
+		sends := findCallsDeep(f, "adder.BlockAdder).AddMany", "adder.BlockAdder).Add", "sharding.DAGService).flushCurrentShard")
+		pins := findCallsDeep(f, ModPath+"/adder.Pin")
 		if len(pins) == 0 {
 			r.Und("pins:"+fn[1], f.Pos(), "%s makes no adder.Pin call", fn[1])
 			continue
 		}
-		for i, p := range pins {
+		for i, dp := range pins {
+			p := dp.Inner
 			key := fmt.Sprintf("%s:pin#%d", fn[1], i+1)
 			late := ""
-			for _, s := range sends {
+			for _, ds := range sends {
+				a, b := ssa.Instruction(dp.Outer), ssa.Instruction(ds.Outer)
+				if dp.Outer == ds.Outer {
+					// both inside the same helper call: compare there
+					a, b = dp.Inner, ds.Inner
+					if a.Parent() != b.Parent() {
+						continue
+					}
+				}
 				after := false
-				if s.Block() == p.Block() {
-					after = dominatesInstr(p, s)
+				if a.Block() == b.Block() {
+					after = dominatesInstr(a, b)
 				} else {
-					after = blockReaches(p.Block(), s.Block())
+					after = blockReaches(a.Block(), b.Block())
 				}
 				if after {
-					late = c.P.Pos(s.Pos())
+					late = c.P.Pos(ds.Inner.Pos())
 				}
 			}
 			if late != "" {
@@ -509,16 +520,10 @@ func r176(c *Ctx, r *R) {
 			if !ok {
 				continue
 			}
-			cond, branch := iff.Cond, true
-			for {
-				if u, ok := cond.(*ssa.UnOp); ok && u.Op == token.NOT {
-					cond, branch = u.X, !branch
-					continue
-				}
-				break
-			}
-			call, _ := originCall(cond)
-			if call == nil || !nameMatches(callName(call.Common()), "=os.IsNotExist") {
+			// which edge means "the slot is missing": os.IsNotExist tested
+			// here, negated, or behind a boolean helper (`!exists(name)`)
+			branch, isTest := missingEdge(iff.Cond, 0)
+			if !isTest {
 				continue
 			}
 			seen++
@@ -2252,4 +2257,77 @@ func r177(c *Ctx, r *R) {
 	if cr := c.fn(r, "consensus/raft", "CleanupRaft"); cr != nil {
 		r.Check(len(findCalls(cr, false, "raft.Config).GetDataFolder")) > 0, "cleanup:uses-getter", cr.Pos(), "CleanupRaft locates the data through GetDataFolder()", "CleanupRaft does not locate the data folder through GetDataFolder()")
 	}
+}
+
+// missingEdge: cond tests whether a file is missing (os.IsNotExist of a
+// Stat error), directly, negated, or through a boolean helper of the
+// repository; returns the truth value of cond that means "missing".
+func missingEdge(cond ssa.Value, depth int) (when bool, ok bool) {
+	when = true
+	for {
+		if u, isU := cond.(*ssa.UnOp); isU && u.Op == token.NOT {
+			cond, when = u.X, !when
+			continue
+		}
+		break
+	}
+	call, idx := originCallLocal(cond)
+	if call == nil {
+		return false, false
+	}
+	if nameMatches(callName(call.Common()), "=os.IsNotExist") {
+		return when, true
+	}
+	h := call.Common().StaticCallee()
+	if h == nil || depth > 2 || len(h.Blocks) == 0 || !isRepoFn(h) || idx >= h.Signature.Results().Len() {
+		return false, false
+	}
+	if b, isB := h.Signature.Results().At(idx).Type().Underlying().(*types.Basic); !isB || b.Kind() != types.Bool {
+		return false, false
+	}
+	// the value the helper returns when the file is missing, the same on
+	// every return that depends on the test
+	var ret *bool
+	set := func(v bool) bool {
+		if ret != nil && *ret != v {
+			return false
+		}
+		ret = &v
+		return true
+	}
+	isMissing := func(want bool) func(g Guard) bool {
+		return func(g Guard) bool {
+			w, ok := missingEdge(g.Cond, depth+1)
+			return ok && (w == g.Branch) == want
+		}
+	}
+	for _, lf := range returnLeaves(h, idx) {
+		if k, isK := constOf(lf.Val); isK && k != nil {
+			switch {
+			case lf.GuardedBy(isMissing(true)):
+				if !set(constant.BoolVal(k)) {
+					return false, false
+				}
+			case lf.GuardedBy(isMissing(false)):
+				if !set(!constant.BoolVal(k)) {
+					return false, false
+				}
+			default:
+				return false, false
+			}
+			continue
+		}
+		w, ok := missingEdge(lf.Val, depth+1)
+		if !ok || !set(w) {
+			return false, false
+		}
+	}
+	if ret == nil {
+		return false, false
+	}
+	// cond (after the NOTs) is missing when the helper returns *ret
+	if !*ret {
+		when = !when
+	}
+	return when, true
 }
